@@ -90,6 +90,8 @@ class Dirty:
                                  target=("pattern" if x["target"].startswith("pattern") else "unrelated")) for x in case["dirt"]]
             # flags that have nothing to do with the dirty check must not influence it
             case["extra"] = [[], ["--ignore-vcs-tag"], ["--tag-scope", "branch"], ["--pin-increments"]][index4]
+            # the developer's tree may hold many other uncommitted files (listed before the pattern files by git)
+            case["many"] = [0, 0, 14, 0][index4]
         else:
             rng = runner.rng_for(seed, self.name, index)
             dirt = []
@@ -104,7 +106,7 @@ class Dirty:
                 if path == "bumpver.toml" and st in ("added", "added_modified", "untracked", "renamed", "deleted_unstaged", "deleted_staged"):
                     st = rng.choice(["modified_unstaged", "modified_staged", "modified_both"])
                 dirt.append({"status": st, "target": target, "path": path})
-            case = {"dirt": dirt, "allow": rng.random() < 0.6,
+            case = {"dirt": dirt, "allow": rng.random() < 0.6, "many": rng.choice([0, 0, 0, 9, 11, 12, 30]),
                     "extra": rng.choice([[], [], ["--ignore-vcs-tag"], ["--tag-scope", "global"], ["--tag-scope", "branch"],
                                          ["--pin-increments"], ["--commit"], ["--tag-commit"], ["--no-push"]])}
         case["ops"] = [{"op": "update"}]
@@ -119,10 +121,18 @@ class Dirty:
                 late[x["path"]] = files.pop(x["path"])
             elif x["status"] == "renamed":
                 files[x["path"] + ".old"] = files.pop(x["path"])
+        many = ["0many/f%02d.txt" % i for i in range(case.get("many", 0))]
+        for m in many:
+            files[m] = b"unrelated work\n"
         invoker.write_tree(d, files)
         rg = realgit.RealGit(d, TODAY, remote=False)
         rg.init()
         invoker.write_tree(d, late)
+        for m in many:
+            with open(os.path.join(d, m), "ab") as fobj:
+                fobj.write(b"in progress\n")
+        if many:
+            ctx.probe("many_unrelated_dirty_files")
         for x in case["dirt"]:
             apply_status(rg, d, x["path"], x["status"], x["target"] == "pattern")
         porcelain = rg.status()
@@ -147,6 +157,7 @@ class Dirty:
         tags1 = rg.tags()
         ctx.event(argv, porcelain, res.exit_code, invoker.digest_snapshot(res.after), head1 != head0, tags1)
         dirt = [x for x in case["dirt"] if x["status"] != "clean"]
+        dirt = dirt + [{"status": "modified_unstaged", "target": "unrelated", "path": m} for m in many]
         tracked_change = [x for x in dirt if x["status"] != "untracked"]
         pattern_dirty = [x for x in dirt if x["target"] == "pattern"]
         key = tuple(sorted((x["status"], x["target"]) for x in dirt)) + (tuple(case.get("extra", [])), case["allow"])
